@@ -10,9 +10,11 @@ import sqlite3
 from harness import common
 
 QUALNAMES = ["my_func", "myXfunc", "MY_FUNC", "Foo.bar", "foo", "a%b", "aXXb"]
+# names with GLOB / regex metacharacters (a prefix test must treat them literally)
+GLOB_QUALNAMES = ["a[b", "a[b]c", "a*b", "a?c", "aXc", "a\\b"]
 MODULES = ["m", "M"]
 PREFIXES = [None, "", "my_func", "my_", "MY_FUNC", "my", "foo", "Foo", "FOO", "Foo.bar", "foo.", "a%b", "a_", "a", "%", "_",
-            "aXXb", "my_funcX"]
+            "aXXb", "my_funcX", "a[", "a[b]", "a*", "a?c", "a?", "*", "[", "a\\"]
 LIMITS = [0, 1, 2, 3, 2000]
 TABLE = "monkeytype_call_traces"
 
